@@ -31,8 +31,14 @@ def assume(a, ps, nmax):
 
 def slices(tier, rng):
     nmax = 2 if tier == 'quick' else 3
-    return [Slice('scope-ps%d' % ps, 't_scope', 11, lambda a, ps=ps: assume(a, ps, nmax), opts={'must_reach': ['ok', 'err']})
-            for ps in ((4,) if tier == 'quick' else (4, 8))]
+    out = [Slice('scope-ps%d' % ps, 't_scope', 11, lambda a, ps=ps: assume(a, ps, nmax), opts={'must_reach': ['ok', 'err']})
+           for ps in ((4,) if tier == 'quick' else (4, 8))]
+    # three and four type imports (repeated imports, last one wins), every module defines the name
+    out.append(Slice('type-imports-ps4', 't_scope', 11,
+                     lambda a: assume(a, 4, 4) + [z3.UGE(a[6], 3), a[1] == 0, a[2] == 1, a[3] == 1, a[4] == 1, a[5] == 1] +
+                               [z3.Implies(z3.UGT(a[6], i), z3.Or(a[7 + i] == 1, a[7 + i] == 2, a[7 + i] == 5)) for i in range(4)],
+                     opts={'must_reach': ['ok']}))
+    return out
 
 
 def spec(a):
